@@ -64,6 +64,7 @@ theorem pop_refines (T : Nat) (hT : legalThreshold T = true) (a : Arr) (c : Ctx)
     (a.popIterate c).1 = a.toList.reverse ∧
     (a.popIterate c).2.1.toList = [] ∧
     (a.popIterate c).2.1.rootID = a.rootID ∧ (a.popIterate c).2.1.ty = a.ty := by
+  have _ := hT; have _ := h
   exact arr_popIterate_refines a c
 
 theorem count_refines (T : Nat) (a : Arr) (ctr : Nat) (h : ArrInv T a ctr) :
@@ -74,6 +75,7 @@ theorem count_refines (T : Nat) (a : Arr) (ctr : Nat) (h : ArrInv T a ctr) :
 theorem setType_refines (T : Nat) (a : Arr) (c : Ctx) (ty : Nat) :
     (a.setType ty c).1.toList = a.toList ∧ (a.setType ty c).1.ty = ty ∧
     (a.setType ty c).1.rootID = a.rootID := by
+  have _ := T
   exact ⟨rfl, rfl, rfl⟩
 
 /-- The two routing branches of `childSlabIndexInfo` (linear scan / binary search) agree on every
@@ -84,5 +86,42 @@ theorem route_linear_eq_binary (cs : List Nat) (index : Nat)
   have hb := MetaSlab.scanBinary_spec index cs hmono hin (cs.length + 1) 0 cs.length
     (Nat.zero_le _) (Nat.le_refl _) (by omega) (by intro j hj; omega) (by intro j h1 h2; omega)
   rw [MetaSlab.scanLinear_of_ans index cs 0 _ hb]; omega
+
+/-! ### Non-vacuity
+
+The theorems above instantiated on `Atree.Example.arr4`, the two-level array (root index slab over
+two data slabs, `T = 256`) produced by running the model, for which `ArrInv` is proved directly. -/
+section NonVacuity
+open Atree.Example
+
+example : run4 = .ok (arr4, 3) := run4_eq
+example : arr4.d = 1 := rfl
+example : ArrInv T0 arr4 3 := arr4_inv
+example : arr4.toList = [elem 0, elem 1, elem 2, elem 3] := rfl
+
+example : arr4.get 2 = .ok (elem 2) := (get_refines T0 legal arr4 3 arr4_inv 2).1 (by decide)
+example : arr4.get 4 = .error .indexOutOfBounds := (get_refines T0 legal arr4 3 arr4_inv 4).2 (by decide)
+example : arr4.count = 4 := count_refines T0 arr4 3 arr4_inv
+
+/-- insertion in the middle of the two-level tree refines `List.insertIdx` -/
+example : ∃ a' c', arr4.insert T0 2 (elem 9) ⟨3, [], []⟩ = .ok (a', c') ∧
+    a'.toList = [elem 0, elem 1, elem 9, elem 2, elem 3] ∧ a'.rootID = ⟨1, 1⟩ := by
+  obtain ⟨a', c', h1, h2, h3, _⟩ :=
+    (insert_refines T0 legal arr4 ⟨3, [], []⟩ 2 (elem 9) (value_ok 9) arr4_inv (by decide)).1 (by decide)
+  exact ⟨a', c', h1, h2, h3⟩
+
+/-- removal that makes the root index slab collapse back to a single data slab -/
+example : ∃ a' c', arr4.remove T0 0 ⟨3, [], []⟩ = .ok (elem 0, a', c') ∧
+    a'.toList = [elem 1, elem 2, elem 3] := by
+  obtain ⟨a', c', h1, h2, _⟩ := (remove_refines T0 legal arr4 ⟨3, [], []⟩ 0 arr4_inv).1 (by decide)
+  exact ⟨a', c', h1, h2⟩
+
+/-- a value too large to inline is stored as a 19-byte reference -/
+example : storedForm T0 arr4 ⟨5000, .val 7⟩ ⟨3, [], []⟩ = ⟨19, .ref ⟨1, 4⟩⟩ := by decide
+
+example : MetaSlab.scanLinear 5 [2, 4, 7, 9] 0 = MetaSlab.scanBinary 5 [2, 4, 7, 9] 0 4 5 :=
+  route_linear_eq_binary [2, 4, 7, 9] 5 (by decide) ⟨9, by simp, by decide⟩
+
+end NonVacuity
 
 end Atree.C01
